@@ -6,6 +6,7 @@ import (
 	"strings"
 	"testing"
 	"testing/synctest"
+	"time"
 )
 
 // bubble runs f inside a testing/synctest bubble. It returns a description when
@@ -24,8 +25,20 @@ func bubble(t *testing.T, f func()) (problem string) {
 		}()
 		synctest.Test(t, func(st *testing.T) { f() })
 	}()
-	return <-res
+	select {
+	case r := <-res:
+		return r
+	case <-time.After(bubbleWatchdog):
+		// The bubble neither finished nor deadlocked durably: some goroutine waits
+		// on something synctest does not treat as durably blocking - in practice a
+		// sync.Mutex that is never released (a lock-order or re-entrancy deadlock in
+		// the code under test). The goroutines of this bubble are abandoned.
+		return "stalled: the bubble made no progress for " + bubbleWatchdog.String() + " of real time (mutex deadlock?)\n" + blockedRoStacks()
+	}
 }
+
+// bubbleWatchdog is generous: a bubble normally finishes within microseconds.
+var bubbleWatchdog = 8 * time.Second
 
 // blockedRoStacks returns the ro frames of goroutines currently parked (used to
 // describe a leak before the bubble ends).
@@ -50,3 +63,7 @@ func blockedRoStacks() string {
 	}
 	return strings.Join(out, "\n")
 }
+
+// rapidT lets bubble-based case runners be called from a rapid property: the
+// bubble needs the real *testing.T of the enclosing test.
+var currentT *testing.T
